@@ -83,6 +83,7 @@ def oracle(ck, sid, lines, out, m, info):
 
     def fail(code, text):
         fails.append((code, text))
+    rep_run = {}           # station -> (frame, number of consecutive identical transmissions)
     lost_since_up = {}     # link key -> frames lost anywhere on the line since that link was reported AVAILABLE
     up_seen = set()
     it = iter([l for l in lines if l.split()[0] in ("enq1", "enq2", "msend")])
@@ -134,6 +135,17 @@ def oracle(ck, sid, lines, out, m, info):
             if lost:
                 for k in lost_since_up:
                     lost_since_up[k] += 1
+            # "when the link does fail this is reported": a primary frame with FCV=1 goes out at most once plus one repetition per
+            # acknowledgement timeout (200 ms) inside the repeat timeout (1000 ms); after that the station gives up and reports the link
+            if len(f) > 1 and not dup:
+                cb = f[1] if f[0] == 0x10 else (f[4] if len(f) > 4 else 0)
+                if cb & 0x40 and cb & 0x10:
+                    prev = rep_run.get(st)
+                    rep_run[st] = (f, prev[1] + 1) if prev and prev[0] == f else (f, 1)
+                    if rep_run[st][1] == 9:
+                        fail("never-gives-up", "station %s transmitted %s nine times in a row without reporting the link in error (acknowledgement timeout 200 ms, repeat timeout 1000 ms)" % (st, f.hex()[:40]))
+                elif cb & 0x40:
+                    rep_run.pop(st, None)
             if L.wf_frame(f, al) or f == b"\xe5" or f[0] != 0x68:
                 continue
             c, a, d = L.fields(f, al)
@@ -177,6 +189,7 @@ def oracle(ck, sid, lines, out, m, info):
             lost_since_up[(e[0], e[1])] = 0
             up_seen.add((e[0], e[1]))
         elif e[0] in ("mls", "sls") and e[2] == 1:
+            rep_run.clear()
             if (e[0], e[1]) in up_seen and lost_since_up.get((e[0], e[1]), 1) == 0:
                 fail("resume", "link %s reported in error although no frame was lost since it was reported available: communication does not resume after re-establishment" % (
                     "of the master to address %d" % e[1] if e[0] == "mls" else "of slave %d" % e[1]))
